@@ -1872,6 +1872,10 @@ impl Planner {
     /// - SUM, AVG, MIN, MAX on variables (not properties for now)
     fn is_simple_aggregate(&self, agg: &AggregateOp) -> bool {
         agg.aggregates.iter().all(|agg_expr| {
+            // The factorized operators count multiplicities; DISTINCT needs the values
+            if agg_expr.distinct {
+                return false;
+            }
             match agg_expr.function {
                 LogicalAggregateFunction::Count | LogicalAggregateFunction::CountNonNull => {
                     // COUNT(*) is always OK, COUNT(var) is OK
